@@ -1,6 +1,6 @@
 SPECIFICATION Spec
 CONSTANTS
-  Small = 300000
+  Small = 80000
   Plain = FALSE
 INVARIANT Lemma
 CHECK_DEADLOCK FALSE
